@@ -56,12 +56,13 @@ pub struct OnceWorld {
     running: Vec<usize>,       // futures whose closure is running (gate reached, not finished)
     value: Option<u64>,
     resolved_by: BTreeMap<usize, Outcome>,
+    set_args: BTreeMap<usize, u64>,
 }
 
 impl OnceWorld {
     pub fn new() -> Self {
         DROPS.with(|d| d.set(0));
-        OnceWorld { futs: BTreeMap::new(), gates: BTreeMap::new(), kinds: BTreeMap::new(), cell: Some(Box::new(OnceCell::new())), metas: Metas::new(), nf: 0, inits_since_take: 0, running: vec![], value: None, resolved_by: BTreeMap::new() }
+        OnceWorld { futs: BTreeMap::new(), gates: BTreeMap::new(), kinds: BTreeMap::new(), cell: Some(Box::new(OnceCell::new())), metas: Metas::new(), nf: 0, inits_since_take: 0, running: vec![], value: None, resolved_by: BTreeMap::new(), set_args: BTreeMap::new() }
     }
     fn cellref(&self) -> &'static OnceCell<Payload> {
         unsafe { &*(&**self.cell.as_ref().unwrap() as *const OnceCell<Payload>) }
@@ -134,6 +135,7 @@ impl World for OnceWorld {
                     "set" => {
                         let x = num(2).unwrap() as u64;
                         let p = Payload(x);
+                        self.set_args.insert(self.nf, x);
                         self.add(Box::pin(async move {
                             match c.set(p).await { Ok(r) => format!("V{}", r.0), Err(back) => { let v = back.0; drop(back); format!("E{}", v) } }
                         }), OK::Set, None, step);
@@ -326,8 +328,12 @@ impl World for OnceWorld {
                 if Some(v) != cur {
                     r.violation("C04", format!("future {} returned value {} but the cell holds {:?}", f, v, cur));
                 }
-                if kind == OK::Set && !op.is_empty() {
-                    // set returned Ok: its own argument must be the stored value
+                if kind == OK::Set {
+                    // set returned Ok(&v): it was the one that initialised the cell, so v is its own argument; an
+                    // argument that did not initialise the cell must come back as Err(argument)
+                    if let Some(a) = r.w.set_args.get(&f) {
+                        if *a != v { r.violation("C04", format!("set({}) (future {}) returned Ok(&{}) although its argument did not initialise the cell: the argument was not handed back", a, f, v)); }
+                    }
                 }
             }
             if res.starts_with('E') {
